@@ -155,12 +155,13 @@ prop('C11',
      'the body-dependent preconditions of the statement (runtime).')
 
 prop('C02',
-     [RO.r02_a, RO.r02_b, S.r02_c, S.r09_h, L_STRUCT, CV.r08_a_wellformed, S.r12_d, S.r09_e],
+     [RO.r02_a, RO.r02_b, S.r02_c, S.r09_h, L_STRUCT, CV.r08_a_wellformed, S.r12_d, S.r09_e, ISO.r17_a],
      'Role inference and threading for the reading mode, must-flow of the definition mode from the command reader to '
      'the dispatcher\'s \\begin test, and def-use rules on the item reader and the group reader.',
      'R02.a the mode is forwarded on every edge and the definition mode reaches the \\begin test through brace and '
      'bracket arguments; R02.b an item body stops without consuming at \\item, \\end and a closing brace; R12.d / '
-     'R09.e groups open only on a brace outside argument position and close only on their own kind.',
+     'R09.e groups open only on a brace outside argument position and close only on their own kind; R17.a the '
+     'signature and name tables those rules evaluate are not written at run time.',
      'everything value-level: names, nesting and argument contents exactly as written.')
 
 
